@@ -146,6 +146,9 @@ fn run_fault_enumeration(scn: &Scenario) -> RunOut {
             IoOp::Fsync => (libc::EIO, 0),
             IoOp::Unlink => (*rng.pick(&[libc::EIO, libc::EACCES]), 0),
             IoOp::Mmap => (libc::ENOMEM, 0),
+            IoOp::Read => (libc::EIO, 0),
+            IoOp::OpenDir => (*rng.pick(&[libc::EMFILE, libc::ENOMEM]), 0),
+            IoOp::Stat => (*rng.pick(&[libc::EIO, libc::ENOMEM]), 0),
             _ => (*rng.pick(&[libc::EMFILE, libc::EIO]), 0),
         };
         let mut one = scn.clone();
